@@ -157,7 +157,7 @@ def run(ctx):
         tails = [b"", bytes(rng.getrandbits(8) for _ in range(rng.randint(1, 40))),
                  bytes(rng.getrandbits(8) for _ in range(1021))]
         if not ctx.quick:
-            tails += [bytes(rng.getrandbits(8) for _ in range(rng.randint(1, 200))) for _ in range(6)]
+            tails += [bytes(rng.getrandbits(8) for _ in range(rng.randint(1, 200))) for _ in range(40)]
         for t in tails:
             p = bytes([hdr[0], hdr[1] | (rng.getrandbits(4) if t else 0)]) + t
             check(ctx, p, ident, defined, False)
